@@ -27,7 +27,7 @@ REAL = ["bec2format.bf3file / bec2file / crypto registry", "register_crypto_plug
         "when the fault arm is active)"]
 STUBS = ["medium: SimFS", "RNG: SimRng", "cipher fault wrapper FaultyAES / abstract base class for 'missing'",
          "RefAES, RefDir (independent models)"]
-PROBES = ["runs-with-assertions-disabled", "concurrent-writers-same-key", "rewritten-under-second-key", "content-longer-than-4096", "content-multiple-of-16", "content-trailing-zero", "content-all-zero", "cipher-missing", "cipher-raised-at-k",
+PROBES = ["runs-with-assertions-disabled", "sibling-package-made-plain", "concurrent-writers-same-key", "rewritten-under-second-key", "content-longer-than-4096", "content-multiple-of-16", "content-trailing-zero", "content-all-zero", "cipher-missing", "cipher-raised-at-k",
           "write-failed-no-file", "write-failed-file-exists", "rewrite-same-ciphertext", "bec2-framing", "config-component",
           "secrecy-needles-checked"]
 ASSUMPTIONS = ["encrypted content is defined up to its declared length; the reader returns the zero-padded plaintext"]
@@ -212,6 +212,14 @@ def run(case):
             env.crypto.register_AES128(make_faulty(env.REAL_AES, state))
         elif mode == "missing":
             env.crypto.register_AES128(env.crypto.AES128)
+        if case["obj"].get("config") is not None and case.get("rng", 0) % 3 == 0 and mode == "real":
+            # a sibling package in the same process gets the same configuration and is then turned into a
+            # plain one by editing its own configuration component in place: no business of this package
+            sib = G.build_bf3(case["obj"], env)
+            sc = sib.components[-1]
+            sc.encrypt_by_session_key = False
+            sc.description[0xC2] = b"\x00"
+            out.probes["sibling-package-made-plain"] += 1
         before = dict(fs.files)
         try:
             # encryptors of auth blocks capture the cipher at construction: build inside
